@@ -33,7 +33,7 @@ Definition d_pair (v : val) : bytes * bytes :=
 Definition e_mech (v : val) : val :=
   match v with
   | VL [VB msgid; VB name; VL resps] =>
-      match std_mechs true msgid name with
+      match std_mechs_tok true true msgid name with
       | Some m => VL [VN (if m_insecure m then 1 else 0); e_mres (m_attempt m (map d_pair resps))]
       | None => VL []
       end
@@ -92,15 +92,16 @@ Definition total_len (cs : list bytes) : nat := fold_right (fun c n => (List.len
 Definition e_mode (m : mode) : N :=
   match m with MCmd => 0 | MAuthWait _ _ _ => 1 | MData _ => 2 end.
 
-(* c08_session [cfg; [cram; msgid]; vtable; queued table; q table; hs; plain chunks; tls chunks]
+(* c08_session [cfg; [cram; msgid; token mechanisms?]; vtable; queued table; q table; hs; plain chunks; tls chunks]
    = [outs (each with the extension flags after the step); final session state; final mode;
       left in recv_buffer; its bytes all TLS] *)
 Definition e_session (v : val) : val :=
   match v with
-  | VL [cfg; VL [cram; VB msgid]; VL vt; VL qt; VL qs; hs; VL pl; VL tl] =>
+  | VL [cfg; VL (cram :: VB msgid :: tokv); VL vt; VL qt; VL qs; hs; VL pl; VL tl] =>
+      let tok := match tokv with [t] => get_bool t | _ => false end in
       let w := {| w_plain := map get_b pl; w_tls := map get_b tl |} in
       let fuel := S (S (total_len (w_plain w) + total_len (w_tls w))) in
-      let tr := t_session (std_mechs (get_bool cram) msgid) fuel (d_cfg cfg)
+      let tr := t_session (std_mechs_tok (get_bool cram) tok msgid) fuel (d_cfg cfg)
                           (d_env vt qt qs (get_bool hs)) w in
       let fin_ts := match rev tr with (_, _, ts) :: _ => ts | [] => t_init (d_cfg cfg) w end in
       VL [VL (map e_trip tr); e_state (t_st fin_ts); VN (e_mode (t_mode fin_ts));
